@@ -48,7 +48,19 @@ sample of every library-level property's cases through each sub-command that rea
 code, and large inputs go through stdin and file); defects placed late in long inputs (C19b);
 prefixes stripped repeatedly (C14b, C19: `perturb()` adds layout perturbations of valid texts);
 and injected-malformed documents that were accidentally invalid elsewhere too, masking the
-injected defect (C13b).
+injected defect (C13b).  Round 3 (the agents were told what had been tried, so the changes became
+more remote): tokens that a *lenient* lookup maps back to the right word — case, full-width,
+ligatures, roman numerals, superscripts (C01c: near-miss tokens keep the checksum valid); paths
+of 256+ components (C03c); 1 key in 256 whose X starts with 0x04 (C04c: walk k·G until every first
+byte of X and Y has occurred); hidden state across calls (C05c: a cache keyed by the digest only —
+closed twice, in the op and by the generic *history-independence probe*: every in-process line is
+re-run by a second process in reversed order and must answer identically); the domain type as
+primary type (C08c); an undefined type no value reaches (C09c); chain ids at every bit boundary
+(C11c: sweep 2^k-1, 2^k, 2^k+1 for k = 0..255); a vanity result from a later request (C12c: spec
+judge for `cli.new_vanity`, which also gives C18 judged witnesses); declared array sizes near 2^64
+(C17c); data starting with a byte-order mark (C19c: `vlib/magic.py`, special byte sequences at the
+start / end / inside of every binary input); JSON `\\uXXXX` escapes in type strings (C20c:
+`vlib/jsonspell.py`, equivalent re-spellings of documents).
 
 **Behaviour-preserving refactors (false-alarm test).** Four sub-agents rewrote the code without
 changing behaviour (25 + 13 + 20 + 25 rewrites: the mnemonic bit packing re-done over a 33-byte bit
